@@ -25,7 +25,9 @@ TEXT = {
              "write of a rewrite: the restarted node lists the unit with its work type), survives_every_crash_if_atomic, finished_survives, "
              "never_started_is_failed, remote_binding_survives, and C04_witness_type_lost_in_window (the recorded finding) over a model of "
              "the unit's files as sequences of file-system steps cut at any point, and of scanForUnit/Restart. Tie: regenerated facts "
-             "(in-place rewrite, scanForUnit's steps, Restart of command and remote units, order of the remote binding writes) + real "
+             "(in-place rewrite, scanForUnit's steps, Restart of command and remote units, order of the remote binding writes) + a remote "
+             "unit finished and mirrored over a real two-node mesh, then the submitting node restarted with the link down (state, size, "
+             "binding and the complete output must survive) + real "
              "daemon processes on a data directory with real detached runners, killed with SIGKILL at armed crash points inside unit "
              "creation and status rewrites (daemon and runner), or from outside, restarted (repeatedly) and queried through the work "
              "commands: listed, work type, remote node, state/size, results fetched, no query blocks.",
@@ -60,7 +62,8 @@ TEXT = {
              "writes, status rewrites and the reader's reads/checks and every start offset), never_ends_early, ends_once_finished "
              "(fair reader), cancelled_never_ends (the repaired defect, as a theorem about the old completion test); for remote units "
              "mirror_prefix and mirror_completes (local copy is a prefix of the remote output across arbitrarily cut requests, and "
-             "level with it after an uncut one). Tie: regenerated facts (completion test, IsComplete, per-read buffer, seek/read/"
+             "level with it after an uncut one), body_via_same_reader_exact / body_via_conn_loses (the body of a results reply is copied "
+             "from the buffered reader that read the reply line: exact however much arrived with the line). Tie: regenerated facts (completion test, IsComplete, per-read buffer, seek/read/"
              "send step, remote offset measured inside the loop, append) + differential runs of the real `work results` ControlFunc/"
              "GetResults against a scripted producer (chunk sizes around the 64 KiB buffer, start offsets 0..size and beyond, asked "
              "before/while/after the unit runs, slow and fast consumers, final states succeeded/failed/cancelled), every received byte "
@@ -115,7 +118,9 @@ TEXT = {
     "C16": dict(
         text="Theorems notice_fields_echo, local_sender_gets_error, notice_published_at_origin, notice_only_to_sender_socket / "
              "notice_not_to_other_nodes, dial_cancelled_by_notice / other_notices_do_not_cancel, drop_is_silent over the packet-handling "
-             "model. Tie: regenerated facts (unknown-listener branch, notice fields, per-socket filter, dial-cancel condition) + "
+             "model; no_notice_lost, delivered_is_prefix, no_deadlock (and a witness of the discarding variant) over a model of the chain "
+             "of blocking hand-offs from the node's broker to the subscriber. Tie: regenerated facts (unknown-listener branch, notice "
+             "fields, per-socket filter, dial-cancel condition, every hop an unbuffered blocking send) + "
              "differential runs of handleMessageData (single node and multi-node) and of StartUnreachable/SubscribeUnreachable/"
              "monitorUnreachable with several sockets and pending dials (deterministic marker protocol, no timing).",
         note=BASE_NOTE + "'Fails fast' (notice beats the 15 s QUIC handshake time-out) is a real-time statement: measured, not proved."),
@@ -124,7 +129,10 @@ TEXT = {
              "per node) by an inductive invariant over arbitrary histories, for the variant that remembers withdrawals — which the "
              "source implements since the repair of the two defects this check found (resurrection after a withdrawal, a withdrawal "
              "relayed again and again; their witness theorems remain as theorems about the variant without tombstones). Tie: "
-             "regenerated facts (withdrawal test, keep test, record/forget, relay) + differential runs of handleServiceAdvertisement "
+             "withdrawn_stays_withdrawn and owner_race_no_resurrection (an advertisement round of the owner that overlaps the closing of "
+             "the listener cannot resurrect the service anywhere). Tie: "
+             "regenerated facts (withdrawal test, keep test, record/forget, relay, where an advertisement is stamped) + an owner-side op "
+             "(the listener closed between collection and send of a round) + differential runs of handleServiceAdvertisement "
              "on shuffled/duplicated histories with logical times, the former failing histories first (corpus).",
         note=BASE_NOTE + "Network-level convergence is stated per node (same messages ⇒ same entry); periodic re-advertisement not modelled."),
     "C20": dict(
@@ -160,7 +168,8 @@ TEXT = {
     "C01": dict(
         text="Theorems lc_terminates_every_schedule and lc_completes (the table computation stops for every graph with finitely many nodes and every pop order, and reaches a state with an empty queue) in addition to: Algorithm layer at full strength: lc_correct_every_schedule (labels = least walk weights for every graph and every pop "
              "order of the label-correcting loop), nexthop_valid, table_has_reachable / table_drops_unreachable, hop_decreases_distance, "
-             "walk_loop_free; silent_link_expires / live_link_kept for connection aging; protocol layer flood_round_truth_partial "
+             "walk_loop_free; silent_link_expires / live_link_kept for connection aging; protocol layer flood_round_truth_partial and "
+             "flood_truth_after_changes_partial (the topology may change any number of times between quiescent moments) "
              "(one flooding round from a quiescent state: every node of the component holds the origin's true adjacency, for every "
              "interleaving and bag delivery; simplified setting, named partial). Tie: regenerated facts (relax test, re-enqueue, "
              "prev walk, aging order) + differential runs of updateRoutingTable on random graphs (costs equal, each hop on a least-cost "
@@ -186,14 +195,20 @@ TEXT = {
              "checked dynamically (lock probe, routing computation terminates) and by the guard facts, not by a lock-order theorem."),
     "C09": dict(
         text="Theorems accept_iff, any_single_failure_refuses, pin_rule / unsupported_pin_refuses, receptor_name_required, "
-             "client_bound_to_source (with the excluded colon point as a witness theorem) over the decision model of "
-             "ReceptorVerifyFunc / the listener's client-name binding. Tie: regenerated facts (pin lengths, order and error exits of the "
-             "verification steps, role usages, name comparison, GetClientTLSConfig per mode, listener expression) + differential runs of "
-             "the real ReceptorVerifyFunc on certificates constructed for the whole product in the quantifier.",
+             "client_bound_to_source (with the excluded colon point as a witness theorem), only_the_leaf_counts, "
+             "required_client_cert_binds_source, require_implies_binding (and a witness of the downgrading variant) over the decision model "
+             "of ReceptorVerifyFunc, PrepareTLSServerConfig's client-authentication mode and the listener's client-name binding. Tie: "
+             "regenerated facts (pin lengths, order and error exits of the verification steps, role usages, name comparison, "
+             "GetClientTLSConfig per mode, listener expression and its condition, the verifier a state-free closure reading the clock per "
+             "handshake, pins compared with the leaf only, client-auth mode per profile) + differential runs of the real "
+             "ReceptorVerifyFunc on certificates constructed for the whole product in the quantifier, on presented chains, with "
+             "certificates issued/expired after the verifier was made, and real mutual-TLS stream dials on a two-node mesh for every "
+             "server profile x client certificate kind.",
         note=BASE_NOTE + "x509/TLS internals are oracles (ground truth by construction)."),
     "C10": dict(
         text="Theorems forward_bound (at most h relays for every table assignment incl. loops), reach_iff, expiry_reporter, "
-             "traceroute_path, notice_terminates over the executable model of handleMessageData/forwardMessage; tie: regenerated facts "
-             "(expire test, decrement, guard, statement order, notice budget) + differential single-node and multi-node runs incl. adversarial tables.",
+             "traceroute_path, notice_terminates, zero_budget_reported_at_origin over the executable model of handleMessageData/forwardMessage; "
+             "tie: regenerated facts (expire test, decrement, guard, statement order, notice budget, a ping subscribes before it sends) + "
+             "differential single-node and multi-node runs incl. adversarial tables, and bursts of concurrent budget-0 pings on a real node.",
         note=BASE_NOTE + "Ping/Traceroute client timing (10 s timeout) is runtime behaviour, not modelled."),
 }
